@@ -49,8 +49,11 @@ FilesU == {"m", "s", "a"}
 Binds == {"GLOBAL", "WEAK"}
 Viss == {"DEFAULT", "PROTECTED", "HIDDEN", "INTERNAL"}
 
-(* the universe of defined global symbols of the program *)
-Universe == [file : FilesU, bind : Binds, vis : Viss, e : {0, 1}, v : {0, 1}, r : {0, 1}]
+(* the universe of defined global symbols of the program.  A reference from a shared library (r = 1)
+   is only generated to symbols that may be exported at all: GNU ld rejects a link in which a DSO
+   references a hidden/localised symbol of the output. *)
+Universe == {x \in [file : FilesU, bind : Binds, vis : Viss, e : {0, 1}, v : {0, 1}, r : {0, 1}] :
+                x.r = 1 => (x.vis \in {"DEFAULT", "PROTECTED"} /\ x.v = 0 /\ x.file # "a")}
 
 -----------------------------------------------------------------------------
 (* Declarative rule *)
@@ -137,11 +140,12 @@ TypeOK == pc \in {"files", "requests", "done"} /\ dyn \subseteq Universe /\ todo
 Dev(x) ==
     IF (x \in dyn) = Exported(x) THEN "same"
     ELSE IF x \in dyn /\ x.vis = "INTERNAL" THEN "internal-visibility-exported"
-    ELSE IF x \in dyn /\ Excluded(x) /\ (cfg.kind # "shared" \/ cfg.exp = "all")
-         THEN "exclude-libs-ignored-by-export-dynamic"
+    (* an --exclude-libs archive symbol is exported after all because of --export-dynamic, an
+       export list entry or a reference from a shared library *)
+    ELSE IF x \in dyn /\ Excluded(x) THEN "exclude-libs-ignored-by-export-request"
     ELSE "unclassified"
 
-KnownDev == {"internal-visibility-exported", "exclude-libs-ignored-by-export-dynamic"}
+KnownDev == {"internal-visibility-exported", "exclude-libs-ignored-by-export-request"}
 
 ConformsOrKnown == pc = "done" => \A x \in Universe : Dev(x) = "same" \/ Dev(x) \in KnownDev
 (* anti-vacuity: must be violated *)
